@@ -240,7 +240,11 @@ where
                     // @TODO: we need to combine access levels here, which requires adding a
                     // trait bound to conditions which allows combining them as well. Or we
                     // return an array of access levels for each peer.
-                    if *current_access < next_access {
+                    //
+                    // The comparison needs to be independent of the order in which the paths
+                    // to this member are visited, the partial order of `Access` is not (with
+                    // conditions two access values can each be "less" than the other).
+                    if state::is_lower_access(current_access, &next_access) {
                         *current_access = next_access.clone();
                     }
                 })
